@@ -13,6 +13,7 @@
 #include "handler.h"
 #include "logger_global.h"
 #include "logmessage.h"
+#include "verifpoint.h"
 
 namespace QtLogger {
 
@@ -39,6 +40,7 @@ public:
     OwnThreadHandler<BaseHandler> &moveToOwnThread()
     {
         QMutexLocker locker(&m_mutex);
+        QTLOGGER_VERIF_POINT("mv.locked", this, m_thread ? 1 : 0, 0);
 
         if (m_thread)
             return *this;
@@ -70,43 +72,56 @@ public:
         });
 
         m_thread->start();
+        QTLOGGER_VERIF_POINT("mv.started", this, 0, 0);
 
         return *this;
     }
 
     void resetOwnThread()
     {
+        QTLOGGER_VERIF_POINT("rs.enter", this, 0, 0);
         QMutexLocker locker(&m_mutex);
+        QTLOGGER_VERIF_POINT("rs.locked", this, m_thread ? 1 : 0, m_pendingCount.loadAcquire());
 
         if (!m_thread)
             return;
 
         while (m_pendingCount.loadAcquire() > 0) {
             locker.unlock();
+            QTLOGGER_VERIF_POINT("rs.wait.unlock", this, 0, 0);
             QThread::msleep(10);
             locker.relock();
+            QTLOGGER_VERIF_POINT("rs.wait.relock", this, m_pendingCount.loadAcquire(), 0);
         }
 
+        QTLOGGER_VERIF_POINT("rs.quit", this, 0, 0);
         m_thread->quit();
 
         if (!m_thread->wait(3000)) {
             m_thread->terminate();
             m_thread->wait();
         }
+        QTLOGGER_VERIF_POINT("rs.joined", this, 0, 0);
 
         m_thread.clear();
         m_worker = nullptr;
+        QTLOGGER_VERIF_POINT("rs.cleared", this, 0, 0);
     }
 
     bool process(LogMessage &lmsg) override
     {
         QMutexLocker locker(&m_mutex);
+        QTLOGGER_VERIF_POINT("oth.locked", this, m_worker ? 1 : 0, 0);
 
         if (m_worker) {
             m_pendingCount.fetchAndAddOrdered(1);
+            QTLOGGER_VERIF_POINT("oth.posting", this, m_pendingCount.loadAcquire(), 0);
             QCoreApplication::postEvent(m_worker, new LogEvent(lmsg));
+            QTLOGGER_VERIF_POINT("oth.posted", this, 0, 0);
         } else {
+            QTLOGGER_VERIF_POINT("oth.sync.begin", this, 0, 0);
             BaseHandler::process(lmsg);
+            QTLOGGER_VERIF_POINT("oth.sync.end", this, 0, 0);
         }
         return true;
     }
@@ -135,8 +150,11 @@ private:
             if (event->type() == LogEvent::type()) {
                 auto logEvent = dynamic_cast<LogEvent *>(event);
                 if (logEvent) {
+                    QTLOGGER_VERIF_POINT("wk.begin", m_handler, 0, 0);
                     m_handler->BaseHandler::process(logEvent->lmsg);
+                    QTLOGGER_VERIF_POINT("wk.processed", m_handler, 0, 0);
                     m_handler->m_pendingCount.fetchAndSubOrdered(1);
+                    QTLOGGER_VERIF_POINT("wk.end", m_handler, 0, 0);
                 }
             }
         }
